@@ -89,8 +89,19 @@ Section Dispatch.
 
   Lemma render_template_S f t s :
     render_template reg data ft (S f) t s =
-    fold_idx (render_step reg data ft f t) (t_els t) 0 (set_current s (t_name t)).
+    rbind (fold_idx (render_step reg data ft f t) (t_els t) 0 (set_current s (t_name t)))
+          (restore_current s).
   Proof. reflexivity. Qed.
+
+  (* a successful Template::render leaves the caller's template name in place *)
+  Theorem render_template_restores_current f t s u s' :
+    render_template reg data ft f t s = ROk u s' -> s_current s' = s_current s.
+  Proof.
+    destruct f as [|f]; [discriminate|]. rewrite render_template_S.
+    destruct (fold_idx (render_step reg data ft f t) (t_els t) 0 (set_current s (t_name t)))
+      as [u0 s1| | |]; cbn [rbind]; try discriminate.
+    unfold restore_current. intros H; injection H as _ <-. reflexivity.
+  Qed.
 
   Lemma render_element_S f e s :
     render_element reg data ft (S f) e s =
@@ -544,8 +555,9 @@ Section Dispatch.
     t_els t = A ++ B ->
     render_template reg data ft (S f) t s =
     rbind (fold_idx (render_step reg data ft f t) A 0 (set_current s (t_name t)))
-          (fun _ s' => fold_idx (render_step reg data ft f t) B (length A) s').
-  Proof. intros He. rewrite render_template_S, He, fold_idx_app. reflexivity. Qed.
+          (fun _ s' => rbind (fold_idx (render_step reg data ft f t) B (length A) s')
+                             (restore_current s)).
+  Proof. intros He. rewrite render_template_S, He, fold_idx_app, rbind_assoc. reflexivity. Qed.
 
   Lemma attach_render_agree t1 t2 idx e :
     t_name t1 = t_name t2 -> nth_error (t_map t1) idx = nth_error (t_map t2) idx ->
@@ -569,9 +581,11 @@ Section Dispatch.
     exists P : rres unit,
       P = fold_idx (render_step reg data ft f t1) A 0 (set_current s (t_name t1)) /\
       render_template reg data ft (S f) t1 s =
-        rbind P (fun _ s' => fold_idx (render_step reg data ft f t1) R1 (length A) s') /\
+        rbind P (fun _ s' => rbind (fold_idx (render_step reg data ft f t1) R1 (length A) s')
+                                   (restore_current s)) /\
       render_template reg data ft (S f) t2 s =
-        rbind P (fun _ s' => fold_idx (render_step reg data ft f t2) R2 (length A) s').
+        rbind P (fun _ s' => rbind (fold_idx (render_step reg data ft f t2) R2 (length A) s')
+                                   (restore_current s)).
   Proof.
     intros H1 H2 Hn Hm. eexists. split; [reflexivity|]. split.
     - apply render_template_app. exact H1.
@@ -590,14 +604,17 @@ Section Dispatch.
       rbind P (fun _ sA =>
         rbind (render_step reg data ft f (MkT nm (A ++ ElDecoExpr dt :: B) m1) (ElDecoExpr dt)
                            (length A) sA)
-              (fun _ sD => fold_idx (render_step reg data ft f (MkT nm (A ++ ElDecoExpr dt :: B) m1))
-                                    B (S (length A)) sD)) /\
+              (fun _ sD =>
+                 rbind (fold_idx (render_step reg data ft f (MkT nm (A ++ ElDecoExpr dt :: B) m1))
+                                 B (S (length A)) sD)
+                       (restore_current s))) /\
     render_template reg data ft (S f) (MkT nm (A ++ B) m2) s =
-      rbind P (fun _ sA => fold_idx (render_step reg data ft f (MkT nm (A ++ B) m2)) B (length A) sA).
+      rbind P (fun _ sA => rbind (fold_idx (render_step reg data ft f (MkT nm (A ++ B) m2)) B (length A) sA)
+                                 (restore_current s)).
   Proof.
     intros Hm P. split.
     - rewrite (render_template_app f (MkT nm (A ++ ElDecoExpr dt :: B) m1) s A (ElDecoExpr dt :: B) eq_refl).
-      reflexivity.
+      apply rbind_ext. intros _ sA. cbn [fold_idx]. rewrite rbind_assoc. reflexivity.
     - rewrite (render_template_app f (MkT nm (A ++ B) m2) s A B eq_refl). unfold P.
       rewrite (prefix_independent f (MkT nm (A ++ ElDecoExpr dt :: B) m1) (MkT nm (A ++ B) m2) A
                  (set_current s nm) eq_refl Hm).
